@@ -655,10 +655,27 @@ func (e *env) write(s *sock, api string, dst string, dport int, size int, lim bo
 	default:
 		panic("unknown write api " + api)
 	}
-	if s.wcbs > 0 || !lim {
+	if s.wcbs > 0 {
 		return "done", e.finishWrite(s, true)
 	}
-	return "parked", nil
+	if lim {
+		return "parked", nil
+	}
+	// sendto would block (a large datagram sent earlier is still charged to the
+	// send buffer): the write reactor is parked; let the loop complete it now
+	e.d.info["async write deferred by would-block"]++
+	for k := 0; k < 20 && s.wcbs == 0; k++ {
+		if err := e.waitWritable(s); err != nil {
+			return "parked", err
+		}
+		if _, err := e.ioc.PollOne(); err != nil {
+			return "parked", fmt.Errorf("PollOne: %w", err)
+		}
+	}
+	if s.wcbs == 0 {
+		return "parked", nil
+	}
+	return "done", e.finishWrite(s, true)
 }
 
 // ---- poll ------------------------------------------------------------------
@@ -818,9 +835,17 @@ func (e *env) sizeOf(st Step) int {
 // take (a dropped datagram would be the kernel's doing, not sonic's): a size
 // that does not fit is replaced by the smallest size of its class.
 func (e *env) fit(n int) int {
+	// a parked write will be sent later, on top of whatever is queued by then
+	// (Linux >= 6.1x drops when rmem + truesize > rcvbuf on a non-empty queue)
+	parked := 0
+	for _, id := range e.order {
+		if s := e.socks[id]; s.wop != 0 {
+			parked += 2*s.wlen + 1024
+		}
+	}
 	for _, id := range e.order {
 		s := e.socks[id]
-		if !roomFor(s.fd, n, 72*1024) {
+		if !roomFor(s.fd, n, 72*1024+parked) {
 			if n > e.capSml {
 				return e.capSml + 1 + e.d.rng.Intn(64)
 			}
@@ -878,6 +903,8 @@ func (d *driver) scenario(steps []Step) error {
 				addr = fmt.Sprintf("%s:%d", e.groups[cfg.Groups[0]], e.port)
 			case "if":
 				addr = fmt.Sprintf("%s:%d", d.ifc.ipString(), e.port)
+			case "solo":
+				addr = ":0"
 			case "empty0":
 				addr = ""
 			case "lo0":
@@ -953,6 +980,35 @@ func (d *driver) scenario(steps []Step) error {
 			d.emit(Ev{Ev: "Mem", P: s.id, Api: st.Api, G: g, Src: src, Err: errClass(err)})
 			if p := xString(st.X); p != "" && p != errClass(err) {
 				d.drift("membership result", si+1, p, errClass(err))
+			}
+		case "Uni":
+			// unicast to a multicast peer that is alone on its port, to one of the host's addresses
+			rcv := e.socks[st.P]
+			dip := "127.0.0.1"
+			if (st.Snd+st.P)%2 == 0 {
+				dip = d.ifc.ipString()
+			}
+			key := 100 + st.Snd*2 + (st.Snd+st.P)%2
+			fd, ok := e.senders[key]
+			if !ok {
+				fd, _, err = rawUDP(dip, 0, false)
+				if err != nil {
+					return err
+				}
+				e.senders[key] = fd
+			}
+			e.did++
+			n := e.fit(e.sizeOf(st))
+			ev := Ev{Ev: "Send", Did: e.did, Len: n, G: dip, Port: rcv.port}
+			ev.Src, ev.Sport, _ = sockName(fd)
+			serr := unix.Sendto(fd, payload(e.did, n), 0, &unix.SockaddrInet4{Port: rcv.port, Addr: ip4(dip)})
+			ev.Err = errClass(serr)
+			d.emit(ev)
+			if serr != nil {
+				return fmt.Errorf("raw sendto %s:%d (%d bytes): %w", dip, rcv.port, n, serr)
+			}
+			if _, err := e.flush(); err != nil {
+				return err
 			}
 		case "Send", "Burst":
 			count := 1
@@ -1161,6 +1217,7 @@ func Run(a tr.Args) error {
 		return d.scenario(steps)
 	})
 	if err != nil {
+		_ = w.Close() // keep what was recorded, for diagnosis
 		return err
 	}
 	d.sum.Events = w.N
